@@ -320,6 +320,11 @@ class Interp:
             raise Crash(f"len of {v!r}")
         if isinstance(f, ast.Name) and f.id == "bool" and len(n.args) == 1:
             return self.truth(self.eval(n.args[0], env))
+        if isinstance(f, ast.Name) and f.id == "int" and len(n.args) == 1 and not n.keywords and "int" not in env:
+            v = self.eval(n.args[0], env)
+            if isinstance(v, (bool, int)):
+                return int(v)
+            raise Crash(f"int() of {v!r}")
         if isinstance(f, ast.Name) and f.id in ("any", "all") and len(n.args) == 1 and isinstance(n.args[0], (ast.GeneratorExp, ast.ListComp)):
             g = n.args[0].generators[0]
             it = self.eval(g.iter, env)
